@@ -1533,6 +1533,52 @@ def r6_pack_table(program, folder, rep):
                            k, v, k, " or ".join(repr(w) for w in want)))
 
 
+def r5_busy_states(program, folder, rep):
+    """Every core that is not idle is reserved: a core counts as busy by
+    ``state != AppState.idle`` or by membership in a constant table that
+    folds to all states but idle (a table that leaves out, say, the error
+    states hands crashed cores to the allocator)."""
+    fn = program.get(PU + ":build_core_constraints")
+    inst = qual(fn)
+    states = folder.name(CONSTS, "AppState")
+    all_busy = set(m.name for m in states if m.name != "idle")
+    n_tests = 0
+    for c in ast.walk(fn):
+        if not isinstance(c, ast.Compare) or len(c.ops) != 1:
+            continue
+        op = c.ops[0]
+        if isinstance(op, (ast.NotEq, ast.IsNot, ast.Eq, ast.Is)) and \
+                "AppState.idle" in (unparse(c.left),
+                                    unparse(c.comparators[0])):
+            n_tests += 1
+            continue
+        if isinstance(op, (ast.In, ast.NotIn)) and \
+                isinstance(c.comparators[0], (ast.Name, ast.Attribute)):
+            try:
+                tbl = folder.eval(c.comparators[0],
+                                  folder.module_env(PU), fn._module)
+                names = set(m.name for m in tbl)
+            except Exception:
+                continue
+            if not names <= set(m.name for m in states):
+                continue
+            n_tests += 1
+            want = all_busy if isinstance(op, ast.In) else {"idle"}
+            rep.check(names == want, "C14-R5", inst, "the table of states "
+                      "that make a core busy holds every state but idle",
+                      construct="busy states table", node=c,
+                      fail="a core counts as busy only in the states %s: "
+                           "cores in %s are treated as free and handed to "
+                           "the allocator although something (a crashed "
+                           "application, say) occupies them" % (
+                               sorted(names), sorted(all_busy - names))
+                      if isinstance(op, ast.In) else None)
+    if not n_tests:
+        raise AnalysisError("build_core_constraints: the test that makes a "
+                            "core busy was not found in a form these rules "
+                            "read")
+
+
 def check(program, rep):
     program.module(MC)
     folder = Folder(program)
@@ -1541,6 +1587,7 @@ def check(program, rep):
     rep.guard("C14-R3", r3_sets, program, rep)
     rep.guard("C14-R4", r4_machine, program, rep)
     rep.guard("C14-R5", r5_reservations, program, rep)
+    rep.guard("C14-R5", r5_busy_states, program, folder, rep)
     rep.guard("C14-R6", r6_status, program, folder, rep)
     rep.guard("C14-R6", r6_version, program, rep)
     rep.guard("C14-R6", r6_pack_table, program, folder, rep)
